@@ -372,6 +372,8 @@ class C14Executor(BytesMixin, ZListMixin, UnitsExecutor):
         return super().compare(st, op, a, b, node)
 
     def contains(self, st, container, item, node):
+        if self.is_zlist(st, container) and isinstance(item, VStr):
+            return [(st, VBool(z3.Contains(st.obj(container.ref).data, z3.Unit(item.t))))]
         if self.is_symbytes(item):
             items = self.concrete_items(st, container)
             if items is not None and all(self.const_bytes(x) is not None for x in items):
@@ -409,6 +411,22 @@ class C14Executor(BytesMixin, ZListMixin, UnitsExecutor):
                     return [(st, None)]
                 return [(st, zl(st, self, z3.Concat(ta, tb)))]
         return super().binop(st, op, a, b, node, inplace)
+
+    def e_ListComp(self, n, st):
+        # `[x for x in <sequence-valued list> if <pure tests on x>]`: some sub-sequence (fresh sequence-valued list)
+        if len(n.generators) == 1 and isinstance(n.elt, ast.Name) and isinstance(n.generators[0].target, ast.Name) \
+                and n.elt.id == n.generators[0].target.id and not any(isinstance(x, (ast.Call, ast.NamedExpr, ast.Yield))
+                                                                       for c in n.generators[0].ifs for x in ast.walk(c)):
+            mark = len(self.sinks[-1])
+            res = self.ev(n.generators[0].iter, st.fork())
+            if len(res) == 1 and self.is_zlist(res[0][0], res[0][1]):
+                del self.sinks[-1][mark:]
+                out = []
+                for (s2, it) in self.ev(n.generators[0].iter, st):
+                    out.append((s2, zl(s2, self, z3.Const(fresh_name("filtered"), SS))))
+                return out
+            del self.sinks[-1][mark:]
+        return super().e_ListComp(n, st)
 
     def zlist_method(self, st, obj, name, args, kwargs, node):
         o = st.obj(obj.ref)
